@@ -39,6 +39,11 @@ impl Personality {
     pub fn from_vec_is_sentinel(self) -> bool {
         self.0 & 32 != 0
     }
+    /// bit6: the type does not override `extension_custom` (a provided method): whatever the provided
+    /// body answers is the answer. Only used on queries that call none of Value's five functions.
+    pub fn keeps_provided_extension(self) -> bool {
+        self.0 & 64 != 0
+    }
 }
 
 thread_local! {
@@ -137,6 +142,20 @@ impl<const P: usize> Sim<P> {
             Value::String(s) => Sim::Str(s.clone()),
             Value::Array(a) => Sim::Arr(a.iter().map(Sim::from_value).collect()),
             Value::Object(o) => Sim::Obj(o.iter().map(|(k, v)| (k.clone(), Sim::from_value(v))).collect()),
+        }
+    }
+    /// The same view with every non-negative integer held as `UInt` (serde_json's own layout: PosInt /
+    /// NegInt), while `From<i64>` keeps building `Int`: the type's `PartialEq` tells the two forms
+    /// apart, the accessors do not, and within one document a number has one form only.
+    pub fn from_value_posint(v: &Value) -> Sim<P> {
+        match v {
+            Value::Number(n) => match n.as_u64() {
+                Some(u) => Sim::UInt(u),
+                None => Sim::from_value(v),
+            },
+            Value::Array(a) => Sim::Arr(a.iter().map(Sim::from_value_posint).collect()),
+            Value::Object(o) => Sim::Obj(o.iter().map(|(k, x)| (k.clone(), Sim::from_value_posint(x))).collect()),
+            other => Sim::from_value(other),
         }
     }
     /// The same view with every object's members listed in a pseudo-random order of its own (equal
@@ -338,6 +357,8 @@ impl<const P: usize> Queryable for Sim<P> {
         seam(4);
         match self {
             Sim::Int(i) => Some(*i),
+            // a document built by `from_value_posint` holds its non-negative integers in this form
+            Sim::UInt(u) => i64::try_from(*u).ok(),
             _ => None,
         }
     }
@@ -346,7 +367,14 @@ impl<const P: usize> Queryable for Sim<P> {
         match self {
             Sim::Float(f) => Some(*f),
             Sim::Int(i) if personality().f64_for_ints() => Some(*i as f64),
-            // the only numeric view such a number has
+            Sim::UInt(u) if *u <= i64::MAX as u64 => {
+                if personality().f64_for_ints() {
+                    Some(*u as f64)
+                } else {
+                    None
+                }
+            }
+            // above i64::MAX: the only numeric view such a number has
             Sim::UInt(u) => Some(*u as f64),
             _ => None,
         }
@@ -378,6 +406,11 @@ impl<const P: usize> Queryable for Sim<P> {
             let ok = uniq.len() == paths.len() && paths.len() == vals && with.iter().all(|p| p.starts_with("$[")) && paths.iter().all(|p| p.starts_with("$["));
             return Sim::Bool(paths.len() >= 2 && ok);
         }
+        if personality().keeps_provided_extension() {
+            // what a type that keeps the provided method gets: sampled from a type that does keep it
+            let r = <Plain as Queryable>::extension_custom(name, vec![]);
+            return Sim::from_value(&r.to_value());
+        }
         // the five extension functions are Value's; a faithful view delegates to them
         let vals: Vec<Value> = args.iter().map(|a| a.as_ref().to_value()).collect();
         let cows: Vec<Cow<Value>> = vals.iter().map(Cow::Borrowed).collect();
@@ -387,6 +420,102 @@ impl<const P: usize> Queryable for Sim<P> {
 }
 
 impl<const P: usize> JsonPath for Sim<P> {}
+
+/// A minimal implementation that keeps every provided method of the trait (see personality bit 6).
+#[derive(Clone, Debug, PartialEq, Default)]
+pub enum Plain {
+    #[default]
+    Null,
+    Bool(bool),
+    Int(i64),
+    Float(f64),
+    Str(String),
+    Arr(Vec<Plain>),
+}
+impl Plain {
+    fn to_value(&self) -> Value {
+        match self {
+            Plain::Null => Value::Null,
+            Plain::Bool(b) => Value::Bool(*b),
+            Plain::Int(i) => Value::from(*i),
+            Plain::Float(f) => Number::from_f64(*f).map(Value::Number).unwrap_or(Value::Null),
+            Plain::Str(s) => Value::String(s.clone()),
+            Plain::Arr(a) => Value::Array(a.iter().map(|x| x.to_value()).collect()),
+        }
+    }
+}
+impl From<&str> for Plain {
+    fn from(s: &str) -> Self {
+        Plain::Str(s.to_string())
+    }
+}
+impl From<String> for Plain {
+    fn from(s: String) -> Self {
+        Plain::Str(s)
+    }
+}
+impl From<bool> for Plain {
+    fn from(b: bool) -> Self {
+        Plain::Bool(b)
+    }
+}
+impl From<i64> for Plain {
+    fn from(i: i64) -> Self {
+        Plain::Int(i)
+    }
+}
+impl From<f64> for Plain {
+    fn from(f: f64) -> Self {
+        Plain::Float(f)
+    }
+}
+impl From<Vec<Plain>> for Plain {
+    fn from(v: Vec<Plain>) -> Self {
+        Plain::Arr(v)
+    }
+}
+impl Queryable for Plain {
+    fn get(&self, _key: &str) -> Option<&Self> {
+        None
+    }
+    fn as_array(&self) -> Option<&Vec<Self>> {
+        match self {
+            Plain::Arr(a) => Some(a),
+            _ => None,
+        }
+    }
+    fn as_object(&self) -> Option<Vec<(&String, &Self)>> {
+        None
+    }
+    fn as_str(&self) -> Option<&str> {
+        match self {
+            Plain::Str(s) => Some(s),
+            _ => None,
+        }
+    }
+    fn as_i64(&self) -> Option<i64> {
+        match self {
+            Plain::Int(i) => Some(*i),
+            _ => None,
+        }
+    }
+    fn as_f64(&self) -> Option<f64> {
+        match self {
+            Plain::Float(f) => Some(*f),
+            Plain::Int(i) => Some(*i as f64),
+            _ => None,
+        }
+    }
+    fn as_bool(&self) -> Option<bool> {
+        match self {
+            Plain::Bool(b) => Some(*b),
+            _ => None,
+        }
+    }
+    fn null() -> Self {
+        Plain::Null
+    }
+}
 
 // ---------------------------------------------------------------------------------------------
 // ShareDoc: a third faithful view, with structural sharing. Equal subtrees are one allocation
